@@ -457,7 +457,8 @@ fn t_shmem(data: &[u8]) -> Outcome {
     use cascette_client_storage::shmem::control_block::{PidTracking, ShmemControlBlock};
     let cb = ShmemControlBlock::from_mapped(data);
     let pt = PidTracking::from_mapped(data);
-    let mut buf = vec![0u8; data.len().max(16)];
+    // to_mapped asserts that the destination can hold the block: give it ample room
+    let mut buf = vec![0u8; data.len() + (64 << 10)];
     let _ = crate::project::shmem_touch(cb.as_ref(), &pt, &mut buf);
     let _ = cascette_client_storage::shmem::IpcMessage::from_bytes(data);
     let mut o = if cb.is_some() { Outcome::ok() } else { Outcome::err("err:rejected", false) };
